@@ -158,6 +158,9 @@ func checkC14(c *Ctx, r *Report, tier string) {
 	r.Rule("C14.R6", "what List and the catalogue snapshot read is what replica changes write: partitions are constructed on elements of the message stored in Dataset.meta; a restore callback is never skipped because its payload is empty", 3)
 	partitionMetaAliasesDatasetMeta(c, r, "C14.R6")
 	restoreNotSkippedOnEmptyPayload(c, r, "C14.R6")
+	r.Rule("C14.R7", "a follower that catches up by snapshot gets the catalogue: the cached snapshot is the persisted one, payload included; an acknowledged catalogue change is on disk: persist dominates every apply site of the Ready loop", 3)
+	cachedSnapshotIsTheWrittenOne(c, r, "C14.R7")
+	borrow(c, r, "C03", "C03.R1", "C14.R7", "")
 	// R4
 	fDatasets := c.Field("storage", "DatasetManager", "datasets")
 	fParts := c.Field("storage", "Dataset", "partitions")
@@ -260,6 +263,8 @@ func checkC20(c *Ctx, r *Report, tier string) {
 	r.Rule("C20.R5", "the address book cannot be written through an alias and a compaction snapshot never forgets the membership: Conn hands out copies of its address map; the WAL writes a snapshot only with a non-nil ConfState", 2)
 	guardedMapNotHandedOut(c, r, "C20.R5", "cluster", "Conn", "addresses")
 	snapshotCarriesMembership(c, r, "C20.R5")
+	r.Rule("C20.R6", "a node with peers configured performs the join handshake on every start (its reply is what restores the peers' addresses after the membership log was compacted)", 1)
+	joinIsUnconditional(c, r, "C20.R6")
 	r.Rule("C20.R2", "the address travels in the entry: the join proposal stores its address argument in ConfChange.Context; the handler hands string(cc.Context) and cc.NodeID of the same unmarshalled change to the address book; the join handler proposes before it answers and answers with the member list plus the joiner", 3)
 	r.Rule("C20.R3", "the zero group's snapshot covers the address book and the conf state (frozen table: cluster.Conn.addresses, RaftGroup.raftConfState)", 2)
 	r.Rule("C20.R4", "a membership change is acknowledged only after it is applied: a function that proposes a ConfChange on behalf of an RPC waits, before any success return, on something only the ConfChange handler signals", 2)
